@@ -22,8 +22,56 @@ CLAIMED = {
             'gather/scatter round-trip and frame proved by induction over the list.', '4 C04'),
     'C05': ('Reflective proof for signed fields: a sign-extending widening would put the sign bit above the field in the symbolic result '
             'and fail the obligation; casts are modelled with explicit sign extension.', '4 C05'),
+    'C06': ('Reflective proof of raw_value()/new_with_raw_value() for all raw values (C06_raw_value_exact, C06_new_with_raw_value_exact), '
+            'C06_storage_minimal, and kernel-checked shape obligations for the struct item, ZERO, DEFAULT_RAW_VALUE, DEFAULT, new() and '
+            'impl Default against the model of Surface.v; size/alignment/Copy and the constants\' values are observed on the compiled code.', '4 C06'),
+    'C07': ('Theorems about the model of the generated match (exact, Err(x), mutually inverse, pigeonhole totality) plus the per-enum '
+            'obligation that the real expansion (arms, default arm, types, constructor, reader) is the model\'s; conversions are also run '
+            'on every raw value for N <= 8.', '4 C07'),
     'C08': ('Reflective proof for custom-typed fields through the uninterpreted conversion boundary ECustomNew/ECustomRaw: exactly the field '
             'bits reach T::new_with_raw_value and exactly T::raw_value() is scattered.', '4 C08'),
+    'C09': ('C09_accept_iff_valid: the model of parse_field (Parse.v) accepts exactly the documented rule valid_decl (Spec.v), for all '
+            'declarations; tied to the code by comparing rustc\'s verdict, the model and the rule on a valid stream and a one-violation-per-'
+            'declaration invalid stream (both directions), every run.', '4 C09'),
+    'C10': ('C10_enum_accept_iff_valid, C10_exhaustive_claims_are_sound (pigeonhole), C10_no_variant_is_unrepresentable over the model of '
+            'bitenum.rs; verdict correspondence in both directions on an enumerated boundary corpus; per-enum obligations on the real match.', '4 C10'),
+    'C11': ('Invariant by induction over arbitrary histories on the REAL bodies: C12_real_code_any_history (no panic, state = abstract '
+            'register, state < 2^N) and C11_rewrap_is_identity_on_reachable_states; the per-run kernel-checked obligations are the '
+            'hypotheses (C12_run_obligations_give_setters_ok).', '4 C11'),
+    'C12': ('C12_last_write_wins by induction over the operation list (any length), with the characterisation of the last covering write, '
+            'commutation of disjoint writes, getters observing the state, coherent aliasing of overlapping fields; lifted to the real '
+            'bodies by C12_real_code_any_history.', '4 C12'),
+    'C13': ('C13_builder_is_the_with_chain_from_the_default on the real with_ bodies, read-back and default-preservation theorems; the '
+            'real builder()/step/build bodies are shape-checked in the kernel against the model of make_builder; builder chains are run.', '4 C13'),
+    'C14': ('C14_overlap_test_is_exact (running-mask test = no bit named twice, by induction), C14_offered_iff_sound, '
+            'C14_only_the_complete_chain_reaches_build (type-state automaton) over the model of make_builder; the real mask chain of every '
+            'corpus declaration must equal the model\'s (kernel-checked); programs that must not compile are compiled.', '4 C14'),
+    'C15': ('PARTIAL: C15_everything_but_set_is_const / C15_builder_steps_are_const over the surface model, kernel-checked equality of the '
+            'real signatures (const flags) with the model; the const evaluator itself is observed: every operation is evaluated in const '
+            'items and compared with the run-time result.', '4 C15'),
+    'C16': ('A successful symbolic evaluation is a certificate of totality and profile independence (C16_seval_total_profile_independent: '
+            'eval in checked mode = unchecked mode = Ok), discharged for every accessor of every corpus declaration; dev and release '
+            'binaries are compared.', '4 C16'),
+    'C17': ('C17_whole_api_surface / C17_field_api_is_exactly_what_the_specifier_says over the surface model and kernel-checked equality '
+            'of the COMPLETE real method list with it; absent methods are also probed by programs that must fail to compile (E0599).', '4 C17'),
+    'C18': ('PARTIAL: kernel-checked obligations on the real token stream (no `unsafe` token, path roots within core/arbitrary_int/user '
+            'names, doc attributes as C18_public_items_are_documented requires); "compiles under the regime" is observed on '
+            '#![no_std], #![deny(missing_docs)], #![forbid(unsafe_code)] crates.', '4 C18'),
+    'C19': ('C19_every_field_by_name_in_order, C19_text_is_a_function_of_the_getters over the model; the real fmt body is shape-checked in '
+            'the kernel; the rendered text ({:?} and {:#?}) is compared with DebugFmt.v on the compiled code.', '4 C19'),
+}
+TECHS = {
+    'C07': 'Rocq/Coq proof over a model of the generated match (Enum.v) + per-enum reflective shape obligation + exhaustive differential run',
+    'C09': 'Rocq/Coq proof: model of parse_field = documented rule (accept_decl_iff_valid); verdict correspondence with rustc',
+    'C10': 'Rocq/Coq proof: model of bitenum validation = rule, pigeonhole totality; verdict correspondence with rustc',
+    'C11': 'Rocq/Coq proof: invariant by induction over operation histories on the translated real bodies (History.v)',
+    'C12': 'Rocq/Coq proof: induction over operation histories (last-write-wins) lifted to the translated real bodies',
+    'C13': 'Rocq/Coq proof: builder = fold of with_ over the real bodies; kernel-checked shape equality with the model of make_builder',
+    'C14': 'Rocq/Coq proof: running-mask overlap test = NoDupBits by induction; type-state automaton uniqueness; compile-fail probes',
+    'C15': 'Rocq/Coq proof over the surface model + kernel-checked signature equality; const evaluation observed (partial)',
+    'C17': 'Rocq/Coq proof over the surface model + kernel-checked equality of the complete real method list; compile-fail probes',
+    'C18': 'Rocq/Coq kernel-checked token/path/doc obligations on the real expansion; crate regimes observed (partial)',
+    'C19': 'Rocq/Coq proof over the debug-tree model + kernel-checked fmt shape; rendered text compared with the model of core::fmt',
 }
 TECH = 'Rocq/Coq proof: verified symbolic evaluator (seval_sound) applied reflectively to the translated real expansion; Spec.v theorems'
 
@@ -41,7 +89,7 @@ for p in props:
             'engine': 'bbv',
             'level_claimed': {'category': 'proof', 'text': text, 'design_ref': 'DESIGN.md section ' + ref},
             'level_note': NOTE_COMMON,
-            'technique': TECH,
+            'technique': TECHS.get(pid, TECH),
         })
 m = {
     'version': 1,
